@@ -20,23 +20,26 @@ GStatement(cfgs) ==
 GNext == GStatement(GenCfgs) \/ (status # "parse" /\ Next)
 GNextThorough == GStatement(GenCfgsThorough) \/ (status # "parse" /\ Next)
 
-\* ledgers for the replay (x 156 statements each in the quick grid, x 254 in the thorough one)
-GenLedgersQuick ==
-    LedgersOf(0, {2}, AllT) \cup LedgersOf(1, {3}, AllT)
-      \cup { l \in LedgersOf(2, {2, 4}, {1, 4, 9}) : l[1].date < l[2].date \/ l[1].ps # l[2].ps }
-      \cup { l \in LedgersOf(3, 2..4, {1, 4, 5, 6, 3}) :
-               l[1].date = 2 /\ l[3].date = 4 /\ <<l[1].ps, l[2].ps, l[3].ps>> \in
-                  { <<Templates[1], Templates[4], Templates[6]>>, <<Templates[5], Templates[6], Templates[3]>>,
-                    <<Templates[4], Templates[1], Templates[5]>> } }
-GenLedgersThorough ==
-    LedgersOf(0, {2}, AllT) \cup LedgersOf(1, {2, 4}, AllT) \cup LedgersOf(2, {2, 3, 5}, {1, 3, 4, 6, 9})
-      \cup { l \in LedgersOf(3, 2..5, {1, 2, 4, 5, 6, 7, 8}) :
-               <<l[1].ps, l[2].ps, l[3].ps>> \in
-                  { <<Templates[1], Templates[4], Templates[6]>>, <<Templates[5], Templates[6], Templates[2]>>,
-                    <<Templates[7], Templates[4], Templates[8]>> } }
-      \cup { l \in LedgersOf(4, {2, 3, 4}, {1, 4, 5, 6}) :
-               l[1].date < l[4].date /\ <<l[1].ps, l[2].ps, l[3].ps, l[4].ps>> =
-                   <<Templates[1], Templates[5], Templates[4], Templates[6]>> }
+\* ledgers for the replay (x 156 statements each in the quick grid, x 352 in the thorough one)
+GenLedgerSet(name) ==
+    CASE name = "quick" ->
+            LedgersOf(0, {2}, AllT) \cup LedgersOf(1, {3}, AllT)
+              \cup { l \in LedgersOf(2, {2, 4}, {1, 4, 9}) : l[1].date < l[2].date \/ l[1].ps # l[2].ps }
+              \cup { l \in LedgersOf(3, 2..4, {1, 4, 5, 6, 3}) :
+                       l[1].date = 2 /\ l[3].date = 4 /\ <<l[1].ps, l[2].ps, l[3].ps>> \in
+                          { <<Templates[1], Templates[4], Templates[6]>>, <<Templates[5], Templates[6], Templates[3]>>,
+                            <<Templates[4], Templates[1], Templates[5]>> } }
+      [] name = "thorough" ->
+            LedgersOf(0, {2}, AllT) \cup LedgersOf(1, {2, 4}, AllT) \cup LedgersOf(2, {2, 3, 5}, {1, 3, 4, 6, 9})
+              \cup { l \in LedgersOf(3, 2..5, {1, 2, 4, 5, 6, 7, 8}) :
+                       <<l[1].ps, l[2].ps, l[3].ps>> \in
+                          { <<Templates[1], Templates[4], Templates[6]>>, <<Templates[5], Templates[6], Templates[2]>>,
+                            <<Templates[7], Templates[4], Templates[8]>> } }
+              \cup { l \in LedgersOf(4, {2, 3, 4}, {1, 4, 5, 6}) :
+                       l[1].date < l[4].date /\ <<l[1].ps, l[2].ps, l[3].ps, l[4].ps>> =
+                           <<Templates[1], Templates[5], Templates[4], Templates[6]>> }
+GInitQuick == InitWith(GenLedgerSet("quick"))
+GInitThorough == InitWith(GenLedgerSet("thorough"))
 
 CoreOut(s) == [i \in 1..Len(s) |-> <<s[i].t, s[i].date, s[i].flag, s[i].k, s[i].u, s[i].px>>]
 Emit ==
